@@ -605,4 +605,7 @@ func gen(r *vh.Rand, tier string, n int, emit func(vh.Case)) {
 	}
 }
 
-func main() { vh.Main(vh.Config{Gen: gen, Exec: exec, CaseTimeout: 60 * time.Second}) }
+func main() {
+	vh.Main(vh.Config{Gen: gen, Exec: exec, CaseTimeout: 60 * time.Second,
+		GiveUpAfter: map[string]int{"no-termination": 8}})
+}
